@@ -76,7 +76,10 @@ def strategy(deep=False):
                 bases = draw(st.lists(st.sampled_from('ACGT'), min_size=nf, max_size=nf))
                 quals = draw(st.lists(st.sampled_from([20, 30, 40]), min_size=nf, max_size=nf))
             plant[str(pos)] = [bases[:nf], quals[:nf]]
-        return {'ref': ref, 'method': method, 'rev': rev, 'site': site, 'frags': frags, 'errseed': errseed, 'plant': plant,
+        mask = None
+        if draw(st.integers(0, 3)) == 0:
+            mask = [max(0, site - draw(st.integers(0, 60))), draw(st.integers(5, 150))]
+        return {'mask': mask, 'ref': ref, 'method': method, 'rev': rev, 'site': site, 'frags': frags, 'errseed': errseed, 'plant': plant,
                 'conflict': conflict_q, 'max_N_span': draw(st.sampled_from([None, None, 0, 5, 50])),
                 'entry': draw(st.sampled_from(['deduplicate_majority', 'deduplicate_majority', 'write_pysam'])),
                 # history: a consensus is requested when only the first k fragments are associated, then the molecule grows
@@ -207,6 +210,11 @@ def reference_from_md(rec):
                     if kind == '=':
                         left = val
                     elif kind == 'X':
+                        # a mismatch entry names the reference base: an upper case letter that differs from the read base
+                        if not val.isupper():
+                            return None, 'MD mismatch letter %r is not upper case' % val
+                        if val == seq[qi].upper() and val != 'N':
+                            return None, 'MD records a mismatch where the read base equals the reference base'
                         res[rp] = val.upper()
                         break
                     else:
@@ -326,7 +334,12 @@ def eval_api(case):
     d = scratch_dir()
     fa = os.path.join(d, 'c15_%d.fa' % os.getpid())
     with open(fa, 'w') as f:
-        f.write('>%s\n%s\n' % (CONTIG, ref))
+        masked = ref
+        if case.get('mask'):
+            # a soft-masked (lower case) stretch of the reference file, as in the UCSC / Ensembl soft-masked genomes
+            a_, n_ = case['mask']
+            masked = ref[:a_] + ref[a_:a_ + n_].lower() + ref[a_ + n_:]
+        f.write('>%s\n%s\n' % (CONTIG, masked))
     if os.path.exists(fa + '.fai'):
         os.remove(fa + '.fai')
     pysam.faidx(fa)
